@@ -51,6 +51,7 @@ def run(ctx):
     import C01
     nf = C01.check_fresh(ctx, prog, classes=('asl::Set', 'asl::HashMap', 'asl::Map', 'asl::Dic', 'asl::HashDic'))
     ctx.floor('R-SHARE value-returning map/set members', nf, 3)
+    ctx.info['set_role_selections'] = check_set_roles(ctx, prog)
     import eqrange
     ctx.floor('R-EQRANGE', eqrange.check(ctx, prog, 'R-EQRANGE', ('asl::Map::operator==',)), 1)
     import retself
@@ -657,6 +658,86 @@ def check_map(ctx, prog):
         ctx.check(not bad, 'C02.map', f['pq'], 'compare' + f['sig'] + ':no integer subtraction', fwhere(f), 'three-way result from comparisons, not from a difference',
                   'key comparator returns the integer difference `%s`: it overflows for keys more than 2^31 apart and the binary search then mis-orders and loses keys' % (bad[0] if bad else ''))
     ctx.floor('C02.map comparators', m, 3)
+
+
+def check_set_roles(ctx, prog):
+    """C02.setpair: a binary set operation that picks its operands by size (`scan` the smaller set, `probe` the larger one) must
+    give the two roles to two different sets for every pair of sizes: with selections that disagree on the tie (`<` in one,
+    `<=` in the other) two sets of equal size are scanned *and* probed as the same set, and `a & b` returns all of a.  Every
+    pair of reference locals initialised with `cond ? s : *this` is evaluated on the grid of sizes 0..3 x 0..3."""
+    n = 0
+    seen = set()
+    for f in prog.functions:
+        if f.get('clsp') != 'asl::Set' or not f.get('body') or f.get('implicit') or len(f['params']) != 1:
+            continue
+        pt = T(f, f['params'][0]['t'])
+        if not pt.get('ref') or T(f, pt.get('to')).get('rec') != f.get('cls'):
+            continue
+        key = (f.get('file'), f.get('line'))
+        if key in seen:
+            continue
+        pid = f['params'][0]['id']
+
+        def which(e):
+            e = strip(e)
+            while e.get('k') in ('paren', 'cast'):
+                e = strip(e['e'])
+            if e.get('k') == 'var' and e.get('id') == pid:
+                return 'arg'
+            if e.get('k') == 'un' and e.get('op') == '*' and strip(e['e']).get('k') == 'this':
+                return 'this'
+            return None
+        sel = []
+        for s_ in ir.walk_stmts(f['body']):
+            if s_.get('k') != 'decl':
+                continue
+            for v in s_['vars']:
+                ini = strip(v.get('init') or {})
+                while ini.get('k') in ('paren', 'cast'):
+                    ini = strip(ini['e'])
+                if ini.get('k') == 'cond' and {which(ini['x']), which(ini['y'])} == {'arg', 'this'}:
+                    sel.append((v, ini))
+        if len(sel) < 2:
+            continue
+        seen.add(key)
+        n += 1
+        ctx.analysed(f)
+
+        def ev(e, la, lb):
+            e = strip(e)
+            k = e.get('k')
+            if k in ('paren', 'cast'):
+                return ev(e['e'], la, lb)
+            if k == 'int':
+                return e['v']
+            if k == 'call' and (e.get('pq') or '').split('::')[-1] in ('length', 'size', 'count') and not e.get('a'):
+                o = e.get('obj')
+                return lb if o is not None and which(o) == 'arg' else la
+            if k == 'bin' and e.get('op') in ('<', '>', '<=', '>=', '==', '!='):
+                x, y = ev(e['x'], la, lb), ev(e['y'], la, lb)
+                return {'<': x < y, '>': x > y, '<=': x <= y, '>=': x >= y, '==': x == y, '!=': x != y}[e['op']]
+            if k == 'un' and e.get('op') == '!':
+                return not ev(e['e'], la, lb)
+            raise ValueError(pe(e))
+        bad = None
+        try:
+            for la in range(4):
+                for lb in range(4):
+                    picks = [(v['n'], which(c['x']) if ev(c['c'], la, lb) else which(c['y'])) for v, c in sel]
+                    if len(set(p_ for _, p_ in picks)) < 2:
+                        bad = (la, lb, picks)
+                        break
+                if bad:
+                    break
+        except (ValueError, KeyError, TypeError) as u:
+            ctx.info.setdefault('setpair_not_evaluated', []).append('%s: %s' % (f['q'], u))
+            continue
+        ctx.evaluations += 16
+        role = '%s%s:the two operand roles go to two different sets' % (f['n'], f.get('sig') or '')
+        ctx.check(bad is None, 'C02.setpair', f['pq'], role, fwhere(f), 'selections evaluated for sizes 0..3 x 0..3: always one role each',
+                  '%s: for |this| = %d and |argument| = %d the locals %s all designate %s: the set is combined with itself (an intersection of two different sets of equal size returns the whole first set)' % (
+                      f['pq'], bad[0] if bad else 0, bad[1] if bad else 0, ', '.join('`%s`' % p_[0] for p_ in (bad[2] if bad else [])), 'the argument' if bad and bad[2][0][1] == 'arg' else '*this'))
+    return n
 
 
 def check_set(ctx, prog):
